@@ -7,7 +7,7 @@ transformation, or be a container-only (equality-preserving) change.
 """
 import ast
 
-from ..model import walk_shallow, call_name, is_self_attr, dotted_name, parent, ancestors, enclosing_function
+from ..model import walk_shallow, call_name, is_self_attr, dotted_name, parent, ancestors, enclosing_function, norm_stmt
 from ..util import (has_call, find_calls, assigned_value, const_str, unparse, kw, arg_or_kw, enclosing_stmt,
                     guards_of, call_tail, control_ancestors)
 from .. import mutate as M
@@ -139,7 +139,7 @@ def r1_targets_follow(ctx, writers):
             for t in TARGETS:
                 ok = t in covered
                 ctx.ob("C10.R1", c.rel, qual, st, f"functional `{t}` is re-bound to the new action representation", ok,
-                       detail={"rebuilt_targets": sorted(covered), "actions_value": unparse(st.value)[:100]}, stmt=f"{t} after: " + unparse(st)[:110])
+                       detail={"rebuilt_targets": sorted(covered), "actions_value": unparse(st.value)[:100]}, stmt=f"{t} after: " + norm_stmt(st, 110))
 
 
 def _is_old_actions(A, fn, X, store):
@@ -217,7 +217,7 @@ def r2_action_follows(ctx, writers):
                 continue
             if not act_stores:
                 ctx.ob("C10.R2", c.rel, qual, st, "the logged action is re-represented together with actions", False,
-                       detail={"transformer": sorted(n for n, _ in tr)}, stmt="action after: " + unparse(st)[:110])
+                       detail={"transformer": sorted(n for n, _ in tr)}, stmt="action after: " + norm_stmt(st, 110))
                 continue
             names = {n for n, _ in tr}
             for a in act_stores:
@@ -254,10 +254,12 @@ def r4_finalize(ctx):
                 ok = len(x.value.args) == 2 and unparse(x.value.args[0]) == f"{X}['actions']" and unparse(x.value.args[1]) == f"{X}['{key}']"
                 ctx.ob("C10.R4", EF, "Finalize.filter", x, f"list `{key}` is bound position-wise to the final actions", ok)
     ctx.floor("C10.R4", "DiscreteReward wraps in Finalize", n, 2)
-    for cls, need in (("BinaryReward", "argmax == comparable"), ("DiscreteReward", "actions.index(comp)")):
+    for cls in ("BinaryReward", "DiscreteReward"):
         f = ctx.fn(PRIM, f"{cls}.__call__")
-        src = unparse(f)
-        ok = need in src and " is " not in src.replace(" is not ", " ")
+        ident = [x for x in walk_shallow(f) if isinstance(x, ast.Compare) and any(isinstance(o, (ast.Is, ast.IsNot)) for o in x.ops)]
+        eqs = [x for x in walk_shallow(f) if (isinstance(x, ast.Compare) and any(isinstance(o, (ast.Eq, ast.In)) for o in x.ops))
+               or (isinstance(x, ast.Call) and call_tail(x) in ("index", "get"))]
+        ok = not ident and bool(eqs)
         ctx.ob("C10.R4", PRIM, f"{cls}.__call__", f, f"{cls} recognises an action by equality (not identity)", ok, stmt=f"{cls} lookup")
     # Dense/Sparse equality is element-wise (what makes container-only changes safe)
     for cls in ("Dense", "Sparse"):
